@@ -27,6 +27,13 @@ extern "C" __attribute__((used, visibility("default"))) const char* __tsan_defau
   return "suppress_equal_stacks=0:suppress_equal_addresses=0:halt_on_error=0:exitcode=0:report_signal_unsafe=0:"
          "history_size=4:second_deadlock_stack=0";
 }
+// libstdc++'s std::ctype<char> keeps lazily filled, unsynchronised narrow()/widen() caches; std::regex (the optional
+// regex provider, trusted base of C14) hits them from every thread that compiles a pattern, and ThreadSanitizer
+// reports that on the unmodified tree. Not ada's state: suppressed by function name, nothing else is.
+extern "C" __attribute__((used, visibility("default"))) const char* __tsan_default_suppressions() {
+  return "race:std::ctype<char>::narrow\nrace:std::ctype<char>::widen\nrace:std::ctype<char>::_M_widen_init\n"
+         "race:std::ctype<char>::_M_narrow_init\n";
+}
 // Called by the TSan runtime for every report it prints.
 extern "C" __attribute__((used, visibility("default"), no_sanitize("thread"))) void __tsan_on_report(void*) {
   g_tsan_reports = g_tsan_reports + 1;
@@ -240,6 +247,7 @@ static Plan generate(uint64_t seed, uint64_t run, const std::map<std::string, st
   std::string mode = opts.count("mode") ? opts.at("mode") : "a";
   std::string fault = opts.count("fault") ? opts.at("fault") : "none";
   int maxthreads = opts.count("maxthreads") ? atoi(opts.at("maxthreads").c_str()) : 4;
+  const bool mix_api = opts.count("mix") && opts.at("mix") == "api";  // URLPattern / C API / search-params heavy
   Rng r(mix_seed(seed, run * 8 + (mode == "a" ? 0 : 1) + (fault == "none" ? 0 : fault == "ta" ? 2 : fault == "stall" ? 4 : 6)));
   p.cfg["mode"] = mode;
   p.cfg["fault"] = fault;
@@ -261,10 +269,29 @@ static Plan generate(uint64_t seed, uint64_t run, const std::map<std::string, st
       int k = r.range(1, fault == "ta" ? 2 : 4);
       for (int i = 0; i < k; i++) {
         Op op;
-        if (i == 0 && t < need) op = gen_table_op(r);
+        if (i == 0 && t < need && !mix_api) op = gen_table_op(r);
         else {
           uint32_t w = r.below(10);
-          if (w < 4) op = gen_table_op(r);
+          if (mix_api && r.chance(2, 3)) {
+            // first concurrent use of the rest of the API: pattern construction + matching, C API, search params
+            auto& c = corpus();
+            uint32_t q = r.below(5);
+            if (q <= 2 && !c.patterns.empty()) op = c.patterns[r.below(uint32_t(c.patterns.size()))];
+            else if (q == 3) {
+              op.kind = OP_PATTERN;
+              op.args.assign(18, std::nullopt);
+              op.args[0] = std::string("https://") + pickl(r, {":sub.example.com", "*.example.com", "example.com", "(.*)"}) +
+                           pickl(r, {"/:id", "/books/:id(\\d+)", "/*", "/a/:b?", ""});
+              op.args[9] = std::string("https://") + pickl(r, {"www.example.com", "example.com", "x.example.com"}) + pickl(r, {"/42", "/books/7", "/a", "/"});
+              op.sub = uint8_t((0 << 1) | (1 << 2));
+            } else {
+              op.kind = OP_CAPI;
+              op.sub = uint8_t(r.below(3));
+              if (op.sub == 0) op.args = {OptStr(gen_abs_url(r)), std::nullopt, std::nullopt};
+              else if (op.sub == 1) op.args = {OptStr(std::string(pick(r, kIdnHosts)))};
+              else op.args = {OptStr("b=2&a=1&c=%zz+x"), OptStr("a"), OptStr(gen_label(r, r.range(0, 12)))};
+            }
+          } else if (w < 4) op = gen_table_op(r);
           else if (w < 7) op = gen_plain_op(r);
           else if (w < 9 && i > 0 && fault != "ta") {
             int s = r.below(S_COUNT);
@@ -399,25 +426,18 @@ static Result execute(const Plan& p, Stats& st) {
     tops[t] = p.thread_ops(t);
     ut[t] = int(p.cfg_u("ut" + std::to_string(t), 1));
   }
-  // ---- sequential reference (tables ready; mode a only) -----------------------
+  // The sequential reference is computed AFTER the simulated run (see below): computing it first would execute every
+  // operation once single-threaded and thereby warm any lazily initialised state inside the library, so that the
+  // threads could never race for a "process's very first call" other than the Unicode tables (which have a reset hook).
   std::vector<std::vector<StepObs>> exp_ok(n), exp_fail(n);
-  if (!mode_b) {
+  if (p.cfg_u("reset_tables", 1) || ta) {
+    ada::idna::verif_reset_tables();
+  } else if (!mode_b) {
     g_yield_fn = nullptr;
     g_spin_fn = nullptr;
-    // A previous TA run leaves the sticky state FAILED behind: forget it, otherwise the
-    // reference below would itself be computed without tables.
     if (table_state() != 2) ada::idna::verif_reset_tables();
-    (void)ada::idna::to_ascii("\xc3\xa9");  // make sure the tables are unpacked
-    for (int t = 0; t < n; t++) exp_ok[t] = seq_expected(tops[t], ut[t]);
-    if (ta) {
-      ada::idna::verif_reset_tables();
-      hooks().fail_alloc = true;
-      for (int t = 0; t < n; t++) exp_fail[t] = seq_expected(tops[t], ut[t]);
-      hooks().fail_alloc = false;
-      ada::idna::verif_reset_tables();
-    }
+    (void)ada::idna::to_ascii("\xc3\xa9");  // "tables already unpacked" runs: make sure they are
   }
-  if (p.cfg_u("reset_tables", 1) || ta) ada::idna::verif_reset_tables();
 
   // ---- the simulated run -------------------------------------------------------
   sch_config cfg{};
@@ -460,6 +480,24 @@ static Result execute(const Plan& p, Stats& st) {
   g_spin_fn = nullptr;
   sch_set_monitor(nullptr);
   ada::set_max_input_length(kUnlimited);
+
+  // ---- sequential reference (tables ready; mode a only), computed after the run -----
+  const uint32_t tsan_after_run = g_tsan_reports;
+  if (!mode_b) {
+    hooks().off();
+    // A TA run leaves the sticky state FAILED behind: forget it, otherwise the reference would itself be
+    // computed without tables.
+    if (table_state() != 2) ada::idna::verif_reset_tables();
+    (void)ada::idna::to_ascii("\xc3\xa9");  // make sure the tables are unpacked
+    for (int t = 0; t < n; t++) exp_ok[t] = seq_expected(tops[t], ut[t]);
+    if (ta) {
+      ada::idna::verif_reset_tables();
+      hooks().fail_alloc = true;
+      for (int t = 0; t < n; t++) exp_fail[t] = seq_expected(tops[t], ut[t]);
+      hooks().fail_alloc = false;
+      ada::idna::verif_reset_tables();
+    }
+  }
 
   // ---- event log identity ------------------------------------------------------
   uint64_t h = 0xcbf29ce484222325ull, shared_sig = 0xcbf29ce484222325ull;
@@ -536,7 +574,7 @@ static Result execute(const Plan& p, Stats& st) {
     res.detail = "table state READY was visible while a table pointer was unset; a reader at that point got a wrong answer";
     return res;
   }
-  uint32_t tsan1 = g_tsan_reports;
+  uint32_t tsan1 = tsan_after_run;
   if (tsan1 != tsan0) {
     res.violation = true;
     res.vclass = "data-race";
